@@ -532,6 +532,9 @@ def run_entry_points(b, tier, seed, props):
                                                 'actual %r, file holds %r' % (act_text, got))
         # binary files
         blobs = [b'', b'\x00', b'abc', b'abd', b'ab', b'abcd', b'\xff\xfe\x00a', b'xbc']
+        # a single differing byte at every offset 0..6 of a 7-byte file, and a longer file with a late difference
+        base7 = b'0123456'
+        blobs += [base7] + [base7[:i] + b'X' + base7[i + 1:] for i in range(7)] + [base7 * 40, base7 * 39 + b'012345Y']
         for eb in blobs:
             for ab in blobs:
                 refp = os.path.join(refdir, 'r.bin')
